@@ -39,7 +39,7 @@ def untag(x, E):
 
 
 # ------------------------------------------------------------------ tagged raw transitions (direct mode)
-def make_transition(t, step, E, style):
+def make_transition(t, step, E, style, dkey="done"):
     """raw transition of stream position t exactly as train_off_policy builds it.
     step = [[reward, done] per env]"""
     ACT, NXT = BASES["direct"]
@@ -57,6 +57,9 @@ def make_transition(t, step, E, style):
         tr = Transition(obs=obs, action=act, reward=rew, next_obs=nxt, done=done)
     td = tr.to_tensordict()
     td.batch_size = [E]
+    if dkey != "done":             # the buffer looks for "done", "termination", "terminated" in that order
+        td[dkey] = td["done"]
+        del td["done"]
     return td
 
 
@@ -89,7 +92,7 @@ def dec_scalar(x, base):
     return out
 
 
-def decode_rows(td, kind):
+def decode_rows(td, kind, dkey="done"):
     """TensorDict with leading dim m -> list of rows [ob, ac, reward(float, exact), nx, done] or None (never written)"""
     ACT, NXT = BASES[kind]
     m = td.shape[0]
@@ -97,7 +100,7 @@ def decode_rows(td, kind):
     nx = dec_obs(td["next_obs"], NXT)
     ac = dec_scalar(td["action"], ACT)
     rw = np.asarray(td["reward"], dtype=np.float64).reshape(m, -1)
-    dn = np.asarray(td["done"], dtype=np.float64).reshape(m, -1)
+    dn = np.asarray(td[dkey], dtype=np.float64).reshape(m, -1)
     rows = []
     for i in range(m):
         r = float(rw[i, 0]) if rw.shape[1] == 1 else float("nan")
@@ -225,7 +228,8 @@ class C10(vlib.Driver):
             p = rng.choice([0.1, 0.25, 0.5])
             stream = [[[rng.randint(-16, 16) / 4.0, 1 if rng.random() < p else 0] for _ in range(E)] for _ in range(L)]
             cases.append({"kind": "direct", "n": n, "gamma": g, "cap": cap, "E": E, "style": "vector",
-                          "stream": stream, "every": 1 if L <= 12 else 3})
+                          "stream": stream, "every": 1 if L <= 12 else 3,
+                          "dkey": ["done", "done", "terminated", "termination"][i % 4]})
         # the real training loop
         ntrain = 16 if tier == "quick" else 120
         for i in range(ntrain):
@@ -251,28 +255,29 @@ class C10(vlib.Driver):
         nbuf = MultiStepReplayBuffer(max_size=cap, n_step=n, gamma=GAMMAS[case["gamma"]])
         mem = ReplayBuffer(max_size=cap)
         every = case.get("every", 1)
+        dkey = case.get("dkey", "done")
         trace = []
         L = len(case["stream"])
         for t, step in enumerate(case["stream"]):
-            td = make_transition(t, step, E, case["style"])
+            td = make_transition(t, step, E, case["style"], dkey)
             # --- the pairing of train_off_policy
             one = nbuf.add(td)
             if one is not None:
                 mem.add(one)
             # ---
-            rec = {"ret": [decode_rows(one, "direct")] if one is not None else [None],
+            rec = {"ret": [decode_rows(one, "direct", dkey)] if one is not None else [None],
                    "nlen": len(nbuf), "mlen": len(mem), "smp": None}
             if t % every == 0 or t == L - 1:
-                rec["nrows"] = decode_rows(nbuf.storage, "direct") if nbuf.storage is not None else [None] * cap
-                rec["mrows"] = decode_rows(mem.storage, "direct") if mem.storage is not None else [None] * cap
+                rec["nrows"] = decode_rows(nbuf.storage, "direct", dkey) if nbuf.storage is not None else [None] * cap
+                rec["mrows"] = decode_rows(mem.storage, "direct", dkey) if mem.storage is not None else [None] * cap
             else:
                 rec["nrows"] = rec["mrows"] = None
             trace.append(rec)
         # sample_from_indices returns the stored rows at the given indices (same indices for both buffers)
         if len(mem) >= 1 and len(nbuf) == len(mem):
             idx = torch.tensor(list(range(len(mem)))[::-1])
-            trace[-1]["smp"] = {"idx": idx.tolist(), "n": decode_rows(nbuf.sample_from_indices(idx), "direct"),
-                                "m": decode_rows(mem.storage[idx], "direct")}
+            trace[-1]["smp"] = {"idx": idx.tolist(), "n": decode_rows(nbuf.sample_from_indices(idx), "direct", dkey),
+                                "m": decode_rows(mem.storage[idx], "direct", dkey)}
         return {"trace": trace, "actions": None}
 
     def run_train(self, case):
@@ -421,6 +426,7 @@ class C10(vlib.Driver):
                 return Violation("aligned", f"nstep:one-step-data:{site}", f"{where}: 1-step record {mr} is not raw transition {k} of env {e} = {raw(k, e)}")
             return None
 
+        out = []       # a layout finding must not hide a content finding on the same case: keep checking
         for t, rec in enumerate(obs["trace"]):
             now = t + 1
             cnt = max(0, now + 1 - n)                      # windows completed so far
@@ -428,51 +434,51 @@ class C10(vlib.Driver):
             if rec["ret"] is not None:
                 ret = rec["ret"][0]
                 if (ret is None) != (now < n):
-                    return [Violation("returned", f"nstep:returned:{site}", f"step {t}: add returned {'None' if ret is None else 'a transition'} with {now} transitions seen, n={n}")]
+                    return out + [Violation("returned", f"nstep:returned:{site}", f"step {t}: add returned {'None' if ret is None else 'a transition'} with {now} transitions seen, n={n}")]
                 if ret is not None:
                     k = now - n
                     want = [raw(k, e) for e in range(E)]
                     if ret != want:
-                        return [Violation("returned", f"nstep:returned:{site}", f"step {t}: add returned {ret}, the raw transition {k} is {want}")]
+                        return out + [Violation("returned", f"nstep:returned:{site}", f"step {t}: add returned {ret}, the raw transition {k} is {want}")]
             want_len = min(cap, cnt * E)
             if rec["nlen"] != want_len or rec["mlen"] != want_len:
-                return [Violation("len", f"nstep:len:{site}", f"step {t}: len(n_step_memory)={rec['nlen']} len(memory)={rec['mlen']} expected {want_len}")]
+                return out + [Violation("len", f"nstep:len:{site}", f"step {t}: len(n_step_memory)={rec['nlen']} len(memory)={rec['mlen']} expected {want_len}")]
             if rec["nrows"] is not None:
                 nrows, mrows = rec["nrows"], rec["mrows"]
                 live_n = [r for r in nrows if r is not None]
                 if len(live_n) != want_len or len([r for r in mrows if r is not None]) != want_len:
-                    return [Violation("contents", f"nstep:contents:{site}", f"step {t}: {len(live_n)} written n-step rows, {len([r for r in mrows if r is not None])} written 1-step rows, expected {want_len}")]
+                    return out + [Violation("contents", f"nstep:contents:{site}", f"step {t}: {len(live_n)} written n-step rows, {len([r for r in mrows if r is not None])} written 1-step rows, expected {want_len}")]
                 for i, row in enumerate(nrows):
                     if row is None:
                         continue
                     v = check_row(row, f"step {t}, n_step_memory.storage[{i}]", now) or \
                         check_pair(row, mrows[i], f"step {t}, storage[{i}]")
                     if v:
-                        return [v]
+                        return out + [v]
                 # the stored windows are the most recent ones
                 have = sorted(r[0] for r in live_n)
                 if have != list(range(cnt * E - want_len + 1, cnt * E + 1)):
-                    return [Violation("contents", f"nstep:contents:{site}", f"step {t}: stored windows {have}, expected the last {want_len} of {cnt * E}")]
+                    return out + [Violation("contents", f"nstep:contents:{site}", f"step {t}: stored windows {have}, expected the last {want_len} of {cnt * E}")]
             s = rec.get("smp")
             if s is not None:
                 # what the learner receives: row j of the n-step batch and row j of the 1-step batch
-                if s.get("nshape") != s.get("mshape"):
-                    return [Violation("batch-shape", f"nstep:learner-batch-shape:{'per' if case.get('per') else 'uniform'}",
+                if s.get("nshape") != s.get("mshape") and not out:
+                    out.append(Violation("batch-shape", f"nstep:learner-batch-shape:{'per' if case.get('per') else 'uniform'}",
                                       f"step {t}: the learner receives a 1-step batch of shape {s.get('mshape')} and an n-step batch of shape "
-                                      f"{s.get('nshape')} for the indices {s['idx']}: row j of one is not row j of the other")]
+                                      f"{s.get('nshape')} for the indices {s['idx']}: row j of one is not row j of the other"))
                 if s["n"] is None or len(s["n"]) != len(s["m"]):
-                    return [Violation("sample", f"nstep:sample-from-indices:{site}", f"step {t}: n-step batch {s['n']} for 1-step batch of {len(s['m'])} rows")]
+                    return out + [Violation("sample", f"nstep:sample-from-indices:{site}", f"step {t}: n-step batch {s['n']} for 1-step batch of {len(s['m'])} rows")]
                 for j, (nr, mr) in enumerate(zip(s["n"], s["m"])):
                     if nr is None:
-                        return [Violation("sample", f"nstep:sample-from-indices:{site}", f"step {t}: sampled index {s['idx'][j]} is an unwritten n-step row")]
+                        return out + [Violation("sample", f"nstep:sample-from-indices:{site}", f"step {t}: sampled index {s['idx'][j]} is an unwritten n-step row")]
                     v = check_row(nr, f"step {t}, n-step batch row {j} (index {s['idx'][j]})", now) or \
                         check_pair(nr, mr, f"step {t}, batch row {j} (index {s['idx'][j]})")
                     if v:
-                        return [v]
+                        return out + [v]
                     if rec["nrows"] is not None and (nr != rec["nrows"][s["idx"][j]] or mr != rec["mrows"][s["idx"][j]]):
-                        return [Violation("sample", f"nstep:sample-from-indices:{site}",
+                        return out + [Violation("sample", f"nstep:sample-from-indices:{site}",
                                           f"step {t}: batch row {j} = {nr} / {mr} but storage[{s['idx'][j]}] = {rec['nrows'][s['idx'][j]]} / {rec['mrows'][s['idx'][j]]}")]
-        return []
+        return out
 
     # ---------- evidence bookkeeping
     def _features(self, case):
@@ -509,7 +515,7 @@ class C10(vlib.Driver):
 
     def classify(self, case, obs):
         labs = [f"kind={case['kind']}", f"n={case['n']}", f"gamma={case['gamma']}", f"envs={case['E']}", f"cap={case['cap']}",
-                f"style={case['style']}", f"len={len(case['stream']) if len(case['stream']) <= 8 else '>8'}"]
+                f"style={case['style']}", f"done-key={case.get('dkey', 'done')}", f"len={len(case['stream']) if len(case['stream']) <= 8 else '>8'}"]
         if case["kind"] == "train":
             labs.append(f"train-site:{'learn_step>envs' if case.get('learn_step', 1) > case['E'] else 'learn_step<=envs'}:{'per' if case.get('per') else 'uniform'}")
         nb = sum(1 for rec in obs["trace"] if rec.get("smp"))
